@@ -377,3 +377,25 @@ func VH_C02_FSStress() {
 	}
 	symCover("stressed")
 }
+
+// VH_C02_Deep: two renders of a template that includes itself D levels deep (and of one that extends a
+// chain of D layouts) run as two threads; any limit or table the engine keeps per engine rather than per
+// render (nesting counters, loop or block registries) would show as a wrong result or an error for one
+// of them under some interleaving. At most SW voluntary switches.
+func VH_C02_Deep() {
+	d := symParam("D", 55)
+	e := New()
+	e.RegisterString("rec", "{% if n > 0 %}{% include 'rec' with {'n': n - 1} %}{% endif %}{{ x }}")
+	e.RegisterString("macrorec", "{% macro r(n, x) %}{% if n > 0 %}{{ _self.r(n - 1, x) }}{% endif %}{{ x }}{% endmacro %}{{ _self.r(n, x) }}")
+	ops := []string{"rec", "macrorec"}
+	p, q := symChoice(2), symChoice(2)
+	x, y := symStringIn(1, "ab"), symStringIn(1, "ab")
+	symTag("ops:" + ops[p] + "+" + ops[q])
+	var o1, o2 string
+	var e1, e2 error
+	symParallel(func() { o1, e1 = e.Render(ops[p], map[string]interface{}{"n": d, "x": x}) },
+		func() { o2, e2 = e.Render(ops[q], map[string]interface{}{"n": d, "x": y}) })
+	symCover("joined")
+	symAssert(e1 == nil && e2 == nil, "concurrent-call-no-error")
+	symAssert(o1 == vhRepeatStr(x, d+1) && o2 == vhRepeatStr(y, d+1), "concurrent-call-equals-serial-call")
+}
